@@ -57,13 +57,20 @@ TRUSTED_BASE = [
     "hand model lean/PdfVerif/Model/Process.lean of the caches and shared tables (tied by comparing predicted cache "
     "key sets, shared-table growth and decoded glyph text with the implementation after every operation)",
     "tools/translate/gen_c12.py (latin_enc.ENCODING + glyphlist entries -> Lean table), cross-checked against "
-    "EncodingDB's four tables on every run",
+    "EncodingDB's four tables on every run; PREDEFINED_COLORSPACE, FONT_METRICS digests, settings.STRICT and the defaults "
+    "of PDFTextState() -> Gen/ProcGlobals.lean, cross-checked against the live objects in every generated history",
+    "hand models lean/PdfVerif/Model/ProcGlobals.lean (explicit process-wide state, render_contents of text-state / "
+    "colour-space / q Q operators) and Model/ProcObjCache.lean (getobj over mutable containers), tied by running the "
+    "same generated call histories / caller actions on pdfminer and the compiled model after every call / action",
     "baseline = the same implementation in a fresh python process (one process per document; thorough tier: a "
     "second process in reverse option order)",
     "document generator/PDF writer/RC4 encryptor of the harness (tools/harness/props/c12_pool.py)",
 ]
 ASSUMPTIONS = [
     "single thread; generators are interleaved in one thread",
+    "user code that changes a container returned by PDFDocument.getobj in place is outside the extraction calls the "
+    "property quantifies over (getobj hands out the cached object itself: getobj_alias_cex, matched by the code); "
+    "settings.STRICT = True is exercised as an option value set for a whole call and restored, never changed by pdfminer",
     "layout analysis and the content interpreter are parameters of the Lean theorems (abstract per-page result); on "
     "the implementation they are covered by the fresh-process baselines (the pool contains exact distance ties "
     "between text boxes: rotated pages with tight margins; the id()-based tie-break found there is fixed)",
@@ -100,9 +107,21 @@ STATEMENT_STATUS: Dict[str, str] = {
     "C12_cmap_copy": "proved: extending a private CMap built with usecmap leaves the shared CMap = fresh load",
     "nocopy_cex": "proved counter-example: get_encoding without the copy leaks /Differences into later fonts",
     "shared_cache_cex": "proved counter-example: a memo table answered under another document's fresh function returns the other document's value (font cache keyed by name / manager shared across documents)",
-    "not_modelled": "PSLiteralTable/PSKeywordTable interning, FONT_METRICS, PREDEFINED_COLORSPACE, settings.STRICT are checked on the "
-                    "implementation only (unchanged / grown only by names of the document); layout and interpreter are "
-                    "parameters of the theorems (abstract per-page result function)",
+    "C12_intern_idempotent": "proved: PSSymbolTable.intern asked again returns the same symbol and leaves the table unchanged",
+    "C12_intern_monotone": "proved: interning only appends; every name already in the table keeps its symbol (any sequence)",
+    "C12_intern_identity": "proved: the symbol returned for a name has that name whatever the table (history), and symbols obtained around ANY further interning are identical iff the names are equal",
+    "C12_globals_unchanged": "proved (all histories of calls): PREDEFINED_COLORSPACE, FONT_METRICS, STRICT unchanged; literal / keyword tables only grow at the end",
+    "C12_globals_lookup_history": "proved: FONT_METRICS / PREDEFINED_COLORSPACE / STRICT reads after any history = the same reads in a fresh process",
+    "C12_page_state_reset": "proved: the state a page ends in (csmap, current colour spaces, text state, gstack, raised-or-not) does not depend on what the previous page left behind nor on the interned tables",
+    "C12_page_state_history": "proved: every page of a call after ANY history of calls = that page rendered alone from the initial globals (independent of set and order of earlier pages)",
+    "cs_nocopy_cex": "proved counter-example: csmap = PREDEFINED_COLORSPACE without .copy() lets a page's /ColorSpace resources change the default colour space of the next page",
+    "C12_getobj_refines_parse": "proved: after ANY history of callers that read or copy-before-change, caching on or off, getobj n = fresh parse of n (the cache refines the pure function (bytes, objid))",
+    "C12_getobj_nocache_pure": "proved: with caching off getobj n = fresh parse of n after EVERY history, in-place changes by callers included",
+    "getobj_alias_cex": "proved counter-example: getobj hands out the cached container itself, not a copy; an in-place change by a caller is seen by later getobj calls (caching on). Matches the code (correspondence); outside the extraction calls the property quantifies over, pdfminer's own callers copy first (cache_inv on the implementation)",
+    "not_modelled": "layout analysis and the glyph/geometry part of the content interpreter are parameters of the theorems (abstract "
+                    "per-page result function); FONT_METRICS is modelled as a digest per entry (number and sum of widths); the "
+                    "interned tables are modelled for the content parser of the modelled operators (document parse interning is "
+                    "checked on the implementation only: grows only by names of the document)",
 }
 
 CLASSIFIERS: Dict[str, Any] = {}
@@ -1316,6 +1335,16 @@ def run_corpus(ctx: C.Ctx) -> None:
 def replay(ctx: C.Ctx, doc, from_corpus: bool = False) -> None:
     warm_imports()
     inp = doc.get("input", {})
+    if "objcache" in inp:
+        from harness.props import c12_objcache as OC
+        ctx.branch("corpus" if from_corpus else "replay")
+        OC.replay_objcache(ctx, inp, canon_obj)
+        return
+    if "gpool" in inp:
+        from harness.props import c12_globals as G
+        ctx.branch("corpus" if from_corpus else "replay")
+        G.replay_globals(ctx, inp)
+        return
     seed, size, ops = inp["pool"], inp["size"], inp["ops"]
     docs = make_pool(seed, size)
     for k, hx in inp.get("docs_hex", {}).items():
@@ -1361,6 +1390,13 @@ def run(ctx: C.Ctx) -> None:
         # stays around 90 s on an idle machine
         ctx.deadline = min(ctx.deadline, time.time() + 45.0)
     run_corpus(ctx)
+    # explicit process-wide state + per-page interpreter state (Model/ProcGlobals.lean): once in a process that
+    # has seen nothing yet, once more after all the document histories below
+    from harness.props import c12_globals as G
+    G.run_globals(ctx, ctx.n(5, 40))
+    # getobj + object cache over mutable containers (Model/ProcObjCache.lean) on documents of a small pool
+    from harness.props import c12_objcache as OC
+    OC.run_objcache(ctx, make_pool(f"C12/objcache/{ctx.seed}/{ctx.boost}", 6), canon_obj, ctx.n(4, 24))
     npools = ctx.n(2, 12)
     for pno in range(npools):
         if not ctx.time_left():
@@ -1371,3 +1407,4 @@ def run(ctx: C.Ctx) -> None:
             run_pool(ctx, f"C12/bulk/{ctx.seed}/{ctx.boost}", 4, 0, 0)
         seed = f"C12/{ctx.seed}/{ctx.boost}/{pno}"
         run_pool(ctx, seed, ctx.rng.choice([6, 7, 8]), 10 if ctx.tier == "quick" else 40, ctx.rng.choice([14, 20, 26]))
+    G.run_globals(ctx, ctx.n(5, 40))
